@@ -578,8 +578,20 @@ void j_sequence(Ctx & c, int64_t pseed, int64_t len, int64_t)
         {
         case 0: operand = r.logu(r.below(2) ? 62 : 40); res = c.call(A_ADD.f[ci], v, operand); shadow += operand; prog += " +" + i2s(operand); break;
         case 1: operand = r.logu(r.below(2) ? 62 : 40); res = c.call(A_SUB.f[ci], v, operand); shadow -= operand; prog += " -" + i2s(operand); break;
-        case 2: operand = r.range(-9, 9) * (r.below(4) == 0 ? 100000 : 1); res = c.call(A_MULI[3].f[ci], v, operand); shadow *= operand; prog += " *" + i2s(operand); break;
-        case 3: operand = r.range(1, 9) * ((r.next() & 1) ? -1 : 1); res = c.call(A_DIVI[3].f[ci], v, operand); shadow = shadow / operand; prog += " /" + i2s(operand); break;
+        case 2:
+          { // * n with n carried by a random integral type (promotion paths differ per type)
+          int ti = (int)r.below(8); const IntType & t = INT_TYPES[ti];
+          i128 n = r.range(-9, 9) * (r.below(4) == 0 ? 100000 : 1); if(r.below(16) == 0) n = int_value(t, random_of_type(r, t));
+          if(n < t.lo || n > t.hi) n = t.is_signed ? (i128)-3 : (i128)3;
+          operand = (int64_t)(uint64_t)(u128)n; res = c.call(A_MULI[ti].f[ci], v, operand); shadow *= n; prog += std::string(" *(") + t.tag + ")" + i128s(n); break;
+          }
+        case 3:
+          {
+          int ti = (int)r.below(8); const IntType & t = INT_TYPES[ti];
+          i128 n = r.range(1, 9) * ((r.next() & 1) ? -1 : 1); if(r.below(16) == 0) n = int_value(t, random_of_type(r, t));
+          if(n < t.lo || n > t.hi || n == 0) n = 3;
+          operand = (int64_t)(uint64_t)(u128)n; res = c.call(A_DIVI[ti].f[ci], v, operand); shadow = shadow / n; prog += std::string(" /(") + t.tag + ")" + i128s(n); break;
+          }
         default: res = c.call(A_NEG.f[ci], v, 0); shadow = -shadow; prog += " neg"; break;
         }
       if(res.sig) { c.signal_event((int)ci, "sequence", pseed, len, res.sig); ok = false; break; }
